@@ -79,6 +79,7 @@ func c18(r *core.Run) {
 	r.Rule("V8", "an error response decodes to the error the handler supplied (shared with C05.E3): the Error(err) method of a request type answers with ToError(err) through the error funnel on every path; it does not pick a predefined static reply by testing the error (errors.Is, its code), which would drop the handler's message and data", 2)
 	r.Rule("V9", "a result response is what the encoder wrote (shared with C07.P8): every payload handed to a reply funnel is a package-level literal or the output of json.Marshal - a response spliced together from raw bytes the handler supplied (a nil or invalid json.RawMessage) is not JSON, and the client classifies it as an error instead of the result the handler gave", 4)
 	c07PayloadProvenance(r, "V9", replyFunnels(r.P), r.P.FuncsOfPkg(""))
+	r.Rule("V10", "classification depends on the text only: every json.Unmarshal of the store's value parser decodes into a zero value made for that call or into the receiver's own members; a pooled or package-level scratch object keeps the members of an earlier parse that the current text does not mention (encoding/json merges), and a reference is classified as a soft reference, a data value as invalid", 1)
 	r.Rule("V7", "equality looks at what the parser set: for every value class, the members of a store Value that Equal reads in that class's arm are members the value parser assigns on every path that ends in that class (the parser does not reset the others, so in a Value that is decoded into again they hold what an earlier text left behind); otherwise Equal answers from stale bytes - equal values differ, different values compare equal", 4)
 	r.Rule("V3", "decoders own their bytes: no UnmarshalJSON method of the library keeps (a slice or byte-slice conversion of) its input parameter in the receiver - the json.Unmarshaler contract lets the caller reuse the buffer, after which a retained alias changes the value's JSON and its equality", 3)
 	r.Rule("V4", "value classes are mutually exclusive: in the store's value parser every assignment of an object class (reference, delete action, data / primitive-in-data) happens on a path where exactly one of the members rid, action, data is known to be present and the other two are known to be absent - an object mixing them is invalid, not silently classified by whichever member is tested first", 3)
@@ -302,6 +303,7 @@ func c18(r *core.Run) {
 
 	// ---- V7: Equal reads only what the parser wrote for that class ------------------
 	c18EqualReadsWhatParserWrote(r, "V7")
+	c18ParserDecodesIntoFreshObject(r, "V10")
 
 	// ---- V3 --------------------------------------------------------------
 	for _, rel := range core.LibPkgs {
@@ -377,7 +379,57 @@ func c18(r *core.Run) {
 					continue
 				}
 				present, absent := map[string]bool{}, map[string]bool{}
+				edges := ctxEdges(p, st, um, 0)
+				// a classifier helper (`switch obj.kind()`): taking the edge "kind() == K" establishes what
+				// holds on every return of the helper that yields K
 				for _, ed := range ctxEdges(p, st, um, 0) {
+					cnd, succ := ed.Norm()
+					bo, ok := cnd.(*ssa.BinOp)
+					if !ok || bo.Op != token.EQL || succ != 0 {
+						continue
+					}
+					call, ok := bo.X.(*ssa.Call)
+					k, isK := core.ConstInt(bo.Y)
+					if !ok || !isK {
+						continue
+					}
+					cal := call.Common().StaticCallee()
+					if cal == nil || len(cal.Blocks) == 0 || cal.Pkg != um.Pkg || cal.Signature.Results().Len() != 1 {
+						continue
+					}
+					var common map[edgeCond]bool
+					for _, ret := range core.Returns(cal) {
+						yields := false
+						for _, src := range phiSources(ret.Results[0]) {
+							if rk, ok := core.ConstInt(src.V); ok && rk == k {
+								yields = true
+							}
+							if _, isC := src.V.(*ssa.Const); !isC {
+								yields = true // not a constant: may be K
+							}
+						}
+						if !yields {
+							continue
+						}
+						cur := map[edgeCond]bool{}
+						for _, he := range dominatingEdges(ret) {
+							cur[he] = true
+						}
+						if common == nil {
+							common = cur
+						} else {
+							for e := range common {
+								if !cur[e] {
+									delete(common, e)
+								}
+							}
+						}
+					}
+					for e := range common {
+						edges = append(edges, e)
+					}
+				}
+				for _, ed := range edges {
 					ci := core.Cond(ed.If.Cond)
 					if ci.Kind != "nilcmp" || !ci.HasFld {
 						continue
@@ -706,4 +758,68 @@ func typeFType(p *core.Prog, f core.Field) types.Type {
 		}
 	}
 	return types.Typ[types.Invalid]
+}
+
+// c18ParserDecodesIntoFreshObject: encoding/json *merges* into its destination
+// (members absent from the text keep their old value), so the classification
+// of a JSON text is a function of the text only if every json.Unmarshal in the
+// value parser writes into a zero value made for this call (a local variable,
+// new(T)) or into the receiver's own members - not into an object that
+// outlives the call (a pooled scratch object, a package-level variable).
+func c18ParserDecodesIntoFreshObject(r *core.Run, rule string) {
+	p := r.P
+	um := methodNamed(p, "store", "Value", "UnmarshalJSON")
+	if um == nil {
+		r.Unres(rule, "store.Value.UnmarshalJSON", "missing")
+		return
+	}
+	n := 0
+	for _, c := range helperCalls(p, um) {
+		if core.CalleeName(c) != "encoding/json.Unmarshal" || len(c.Common().Args) != 2 {
+			continue
+		}
+		n++
+		dst := c.Common().Args[1]
+		if mi, ok := dst.(*ssa.MakeInterface); ok {
+			dst = mi.X
+		}
+		why := ""
+		for _, src := range phiSources(dst) {
+			v := core.Strip(src.V)
+			switch x := v.(type) {
+			case *ssa.Alloc:
+				continue // a local variable or new(T): zero at allocation, one per call
+			case *ssa.FieldAddr:
+				if derivesFromRecv(x.X, 0) {
+					continue // a member of the value being parsed
+				}
+				if _, isAl := core.Strip(x.X).(*ssa.Alloc); isAl {
+					continue
+				}
+			case *ssa.Parameter:
+				if vs := paramArgs(p, x, 0); len(vs) > 0 {
+					fresh := true
+					for _, a := range vs {
+						switch y := core.Strip(a).(type) {
+						case *ssa.Alloc:
+						case *ssa.FieldAddr:
+							if !derivesFromRecv(y.X, 0) {
+								fresh = false
+							}
+						default:
+							fresh = false
+						}
+					}
+					if fresh {
+						continue
+					}
+				}
+			}
+			why = valDesc(src.V)
+		}
+		r.Check(why == "", rule, core.FuncName(c.Parent()), fmt.Sprintf("json.Unmarshal#%d-into-a-fresh-object", n), p.InstrPos(c), "decodes into a zero value made for this call (or the receiver's own member)", "the value parser decodes into "+why+", an object that is not made for this call: encoding/json leaves members that are absent from the text as they were, so what an earlier (failed or partial) parse left behind decides how the next JSON text is classified")
+	}
+	if n == 0 {
+		r.Bad(rule, core.FuncName(um), "json.Unmarshal-into-a-fresh-object", p.Pos(um.Pos()), "the value parser calls json.Unmarshal nowhere (rule went vacuous)")
+	}
 }
